@@ -65,6 +65,7 @@ def main():
             return txt
 
     out = []
+    _USER = {}
     for fidx, entry in hist:
         path = os.path.join(workdir, f"pool{fidx}.txt")
         buf = _Seg()
@@ -88,6 +89,16 @@ def main():
                     lines, states = cls_.read_ampgen(text=txt)
                     r = {"read2": [[str(ln), repr(ln.amp)] for ln in lines], "states": [[str(s), repr(s.mass), repr(s.width)] for s in states],
                          "intro": cls_.make_intro(states), "pars": cls_.make_pars()}
+                elif entry in ("read_user_cpp", "read_user_py", "read_user_base"):
+                    # a user's own reader class derived from one of the library's ("can be subclassed to provide custom converters")
+                    base_ = {"read_user_cpp": GooFitChain, "read_user_py": GooFitPyChain, "read_user_base": AmplitudeChain}[entry]
+                    cls_ = _USER.setdefault(entry, type("My" + base_.__name__, (base_,), {"__slots__": ()}))
+                    res_ = cls_.read_ampgen(path)
+                    lines, states = (res_[0], res_[-1])
+                    r = {"read2": [[str(ln), repr(ln.amp)] for ln in lines], "states": [[str(s), repr(s.mass), repr(s.width)] for s in states],
+                         "particles": sorted(str(x) for x in cls_.all_particles), "cartesian": bool(cls_.cartesian)}
+                    if entry != "read_user_base":
+                        r.update({"intro": cls_.make_intro(states), "pars": cls_.make_pars()})
                 elif entry == "read_cpp":
                     lines, states = GooFitChain.read_ampgen(path)
                     r = {"read2": [[str(ln), repr(ln.amp)] for ln in lines], "states": [[str(s), repr(s.mass), repr(s.width)] for s in states],
